@@ -287,14 +287,22 @@ def isV4Mapped (b : Bytes) : Bool := b.take 12 == [0, 0, 0, 0, 0, 0, 0, 0, 0, 0,
 /-- the zero-copy paths of marshal.go: Marshal dereferences pointers, then marshalVarchar / marshalUUID
     hand a byte slice back as it is and marshalInet returns `To4()` / `To16()` of a net.IP (sub-slices of it).
     Only for the value bound to the column itself (inside composites the bytes are copied). -/
+def isUuidTy : CqlTy → Bool
+  | .uuid | .timeuuid => true
+  | _ => false
+
+def isInetTy : CqlTy → Bool
+  | .inet => true
+  | _ => false
+
 def passthrough (t : CqlTy) (g : GoVal) : Option (Nat × Nat × Nat) :=
   match derefAll g with
   | .bytes _ false b =>
-    if t.isText || t == .blob then some (0, 0, b.length)
-    else if (t == .uuid || t == .timeuuid) && b.length == 16 then some (0, 0, 16)
+    if t.isText then some (0, 0, b.length)
+    else if isUuidTy t && b.length == 16 then some (0, 0, 16)
     else none
   | .ip b =>
-    if t == .inet then
+    if isInetTy t then
       if b.length == 4 then some (0, 0, 4)
       else if b.length == 16 then (if isV4Mapped b then some (0, 12, 4) else some (0, 0, 16))
       else none
